@@ -1143,7 +1143,9 @@ fn c08_configure_if_needed_against_sign_machine() {
     let mut sign = any_snap(own);
     let s0 = sign.state;
     let ready = s0 == sign_spec::CFG_RECV || s0 == sign_spec::SHOWING || s0 == sign_spec::LOADED || s0 == sign_spec::SHOW_PROG || s0 == sign_spec::SHOWN || s0 == sign_spec::LOAD_PROG;
-    kani::assume(!ready || (sign.ty == ti && (sign.width, sign.height) == (cfg.1, cfg.2)));
+    // exactly the quantifier of the property: not ready-to-receive, or recording the same sign type (that the recorded size is
+    // then that type's size is part of the invariant proved for the virtual sign: type_ok in snap_inv)
+    kani::assume(!ready || sign.ty == ti);
     let mut bus = Bus::new(own, Kind::Configure, Phase::IfNeededHello);
     bus.n_items = 1;
     bus.items[0] = (core::ptr::null(), 16);
